@@ -762,6 +762,16 @@ Proof.
   - unfold seek_fuel. rewrite Lt. lia.
 Qed.
 
+(** The same including [k = 0] (the empty combination, ID 0). *)
+Theorem seek_total m k id : Z.of_nat k <= m + 1 -> m + 1 < I63 ->
+  bz (m + 1) k < W64 -> 0 <= id < bz (m + 1) k ->
+  exists s, seek m k id = Ok s /\ Valid m s /\ length s = k /\ rank m s = id.
+Proof.
+  intros Hk Hm Bk Hid. destruct k as [|k'].
+  - exists []. rewrite bz_0 in Hid. unfold Valid, rank. cbn. repeat split. lia.
+  - apply seek_ok; try assumption; lia.
+Qed.
+
 (** * 8. Applying a combination: flips *)
 
 Definition memZ (x : Z) (s : list Z) : bool := if in_dec Z.eq_dec x s then true else false.
@@ -1026,10 +1036,11 @@ Example ex_seek : seek 4 3 5 = Ok [0; 3; 4] /\ 0 <= 5 < bz (4 + 1) 3 /\ bz (4 + 
 Proof. repeat split; vm_compute; congruence. Qed.
 
 (** Beyond the 1000x10 lookup table, still within uint64. *)
-Example ex_big_bound : 4000 + 1 < I63 /\ bz (4000 + 1) 5 < W64 /\ Valid 4000 [5; 17; 1000; 1001; 4000].
+Example ex_big_bound : 4000 + 1 < 2 ^ 63 /\ binom (Z.to_nat (4000 + 1)) 5 < 2 ^ 64 /\
+  Valid 4000 [5; 17; 1000; 1001; 4000].
 Proof.
-  split; [unfold I63; lia|]. split.
-  - unfold bz. rewrite <- binom_fast_Z by lia. vm_compute. reflexivity.
+  split; [change (2 ^ 63) with 9223372036854775808; lia|]. split.
+  - rewrite <- binom_fast_Z by lia. vm_compute. reflexivity.
   - unfold Valid. cbn [Inc]. lia.
 Qed.
 
